@@ -283,6 +283,233 @@ def oracle_diff(entry, nh, toks):
     return ' '.join(ev) if ev else '-'
 
 
+DRIVE_ALPHA = 'dripacsejq=~'
+DRIVE_CORE = 'dipcje'
+DRIVE_READER = 'dripa='       # single-pass underlying iterator: no second iterator object that is advanced
+DRIVE_OPNAME = {'d': 'use(*a)', 'r': 'use(*a.operator->())', 'i': '++a', 'p': 'use(*a++)', 'a': 'std::advance(a, 2)',
+                'c': 'b = a', 's': 'a = b', 'e': 'use(*b)', 'j': '++b', 'q': 'use(*b++)', '=': 'a == end', '~': 'a == b'}
+
+
+def oracle_drive(script, toks):
+    """the property for ANY driving pattern: what a dereference presents is oracle_diffs() at the
+    POSITION of the iterator object (a counter), whatever was done before.  Independent of the Lean
+    model."""
+    return oracle_script(script, oracle_diffs(parse_diff_toks(toks)))
+
+
+def oracle_fdrive(cls, script, toks):
+    """filtering iterators: position i presents the i-th item of a compatible type"""
+    return oracle_script(script, [str(p) for p, t in enumerate(x[0] for x in toks if x != '|') if t in FILTER_MEMBERS[cls]])
+
+
+def oracle_script(script, ds):
+    """ds[i] = what position i has to present.  -> (expected tokens, per-token info (op index, object,
+    position, how the object got there), script features)"""
+    n = len(ds)
+    pos = {'a': 0, 'b': 0}
+    seen = {'a': False, 'b': False}       # this OBJECT was dereferenced at its current position
+    how = {'a': 'fresh', 'b': 'fresh'}    # how this object arrived at its current position
+    out, info, feats = [], [], set()
+
+    def inc(o, k, via):
+        if not seen[o]:
+            feats.add('skip')
+        how[o] = via + ('-after-deref' if seen[o] else '-without-deref')
+        pos[o] += k
+        seen[o] = False
+
+    for idx, c in enumerate(script):
+        if c == '.':
+            continue
+        o = 'b' if c in 'ejq' else 'a'
+        if c in 'dre':
+            if pos[o] < n:
+                if seen[o]:
+                    feats.add('rederef')
+                out.append(ds[pos[o]])
+                info.append((idx, o, pos[o], how[o] + ('+seen' if seen[o] else '')))
+                seen[o] = True
+            else:
+                out.append('@'); info.append((idx, o, pos[o], 'end'))
+        elif c in 'ij':
+            if pos[o] < n:
+                inc(o, 1, 'inc')
+            else:
+                out.append('@'); info.append((idx, o, pos[o], 'end'))
+        elif c in 'pq':
+            feats.add('post')
+            if pos[o] < n:
+                out.append(ds[pos[o]])
+                info.append((idx, o, pos[o], 'temp-of-postinc:' + how[o] + ('+seen' if seen[o] else '')))
+                inc(o, 1, 'inc')      # the temporary was dereferenced, not the object itself
+            else:
+                out.append('@'); info.append((idx, o, pos[o], 'end'))
+        elif c == 'a':
+            if pos['a'] + 1 < n:
+                inc('a', 2, 'advance2')
+            else:
+                out.append('@'); info.append((idx, 'a', pos['a'], 'end'))
+        elif c == 'c':
+            feats.add('copy')
+            pos['b'], seen['b'], how['b'] = pos['a'], seen['a'], 'copy:' + how['a'].replace('copy:', '')
+        elif c == 's':
+            feats.add('copy')
+            pos['a'], seen['a'], how['a'] = pos['b'], seen['b'], 'copy:' + how['b'].replace('copy:', '')
+        elif c == '=':
+            out.append('E1' if pos['a'] == n else 'E0'); info.append((idx, 'a', pos['a'], 'cmp'))
+        elif c == '~':
+            out.append('Q1' if pos['a'] == pos['b'] else 'Q0'); info.append((idx, 'a', pos['a'], 'cmp'))
+        else:
+            raise ValueError(script)
+    return out, info, feats
+
+
+def drive_script(body, n):
+    """the body as a loop body: repeated until every position has been passed"""
+    reps = n + 1 if any(c in 'ipajq' for c in body) else 2
+    return '.'.join([body] * reps)
+
+
+def run_shape(toks):
+    objs = parse_diff_toks(toks)
+    runs, prev = [], None
+    for _, o in objs:
+        if o[:2] == prev:
+            runs[-1] += 1
+        else:
+            runs.append(1)
+        prev = o[:2]
+    return runs
+
+
+def gen_drive_ops(ctx, quick):
+    import itertools
+    rng = ctx.rng
+    ops = []
+
+    def bodies(alpha, k):
+        return [''.join(s) for s in itertools.product(alpha, repeat=k)]
+
+    def layouts(runs, all_variants):
+        k = len(runs)
+        v = [(['n'] * k, list(range(1, k + 1)))]
+        if all_variants and k >= 2:
+            cut = k // 2
+            v.append((['n'] * cut + ['w'] * (k - cut), list(range(1, cut + 1)) + list(range(1, k - cut + 1))))   # same ids across the type boundary
+            v.append(([('n', 'w', 'r')[min(2, i * 3 // k)] for i in range(k)], [-i for i in range(k, 0, -1)]))
+        return [history(runs, ts, ids) for ts, ids in v]
+
+    # (1) every body of length 1..2 over ALL operations x every run-length pattern up to total length 6 (5 quick)
+    for blen in (1, 2):
+        for body in bodies(DRIVE_ALPHA, blen):
+            for n in range(0, 6 if quick else 7):
+                for runs in compositions(n):
+                    for toks in layouts(runs, True):
+                        for e in ('it', 'itc'):
+                            ops.append('drive %s %s %s' % (e, drive_script(body, n), ' '.join(toks)))
+    # (2) every body of length 3 over ALL operations x run-length patterns up to 4 (5)
+    for body in bodies(DRIVE_ALPHA, 3):
+        for n in range(1, 5 if quick else 6):
+            for runs in compositions(n):
+                for toks in layouts(runs, not quick):
+                    ops.append('drive it %s %s' % (drive_script(body, n), ' '.join(toks)))
+    # (3) longer bodies over the core operations (thorough: length 4 over all operations too)
+    for blen, alpha, ns in ([(4, DRIVE_CORE, (3, 4))] if quick else [(4, DRIVE_ALPHA, (2, 3, 4)), (5, DRIVE_CORE, (3, 4)), (6, DRIVE_CORE, (3,))]):
+        for i, body in enumerate(bodies(alpha, blen)):
+            for n in ns:
+                for runs in compositions(n):
+                    ops.append('drive %s %s %s' % (('it', 'itc')[i & 1], drive_script(body, n), ' '.join(history(runs, ['n'] * len(runs), list(range(1, len(runs) + 1))))))
+    # (4) DiffIterator over the single-pass InputIterator: one iterator object, buffers cut at random
+    for blen in (1, 2, 3):
+        for body in bodies(DRIVE_READER, blen):
+            for n in range(0, 5 if quick else 7):
+                for runs in compositions(n):
+                    rt = []
+                    for tk in history(runs, ['n'] * len(runs), list(range(1, len(runs) + 1))):
+                        if rng.chance(1, 3):
+                            rt += ['|'] * (1 + rng.below(2))
+                        if rng.chance(1, 4):
+                            rt.append(rng.choice(['c', 'T', 'X', 'D']))
+                        rt.append(tk)
+                    if rng.chance(1, 3):
+                        rt.append('|')
+                    ops.append('drive itr %s %s' % (drive_script(body, n), ' '.join(rt)))
+    # (5) random long scripts over random histories
+    for _ in range(3000 if quick else 60000):
+        k = 1 + rng.below(5)
+        runs = [1 + rng.below(rng.choice([1, 2, 3, 5])) for _ in range(k)]
+        objs = set()
+        while len(objs) < k:
+            objs.add((rng.choice('nwr'), rng.below(4) + 1))
+        objs = sorted(objs, key=lambda o: ('nwr'.index(o[0]), o[1]))
+        toks = history(runs, [o[0] for o in objs], [o[1] for o in objs])
+        e = rng.choice(['it', 'itc', 'itr'])
+        alpha = DRIVE_READER if e == 'itr' else DRIVE_ALPHA
+        script = ''.join(rng.choice(alpha) for _ in range(4 + rng.below(3 * sum(runs))))
+        ops.append('drive %s %s %s' % (e, script, ' '.join(toks)))
+    return ops
+
+
+FDRIVE_CLASSES = ['OSMObject', 'Node', 'Item', 'TagList', 'OSMEntity', 'Way', 'Changeset', 'RelationMemberList']
+
+
+def gen_fdrive_ops(ctx, quick):
+    """driving patterns of the typed ItemIterator (c/m: two iterator objects) and of the single-pass
+    InputIterator (r: one object)"""
+    import itertools
+    rng = ctx.rng
+    ops = []
+
+    def bodies(alpha, k):
+        return [''.join(s) for s in itertools.product(alpha, repeat=k)]
+
+    def line(cls, mode, body, s):
+        n = len([x for x in s if x != '|' and x[0] in FILTER_MEMBERS[cls]])
+        return 'fdrive %s %s %s %d %s' % (cls, mode, drive_script(body, n), n, ' '.join(s))
+    classes = FDRIVE_CLASSES[:3] if quick else FDRIVE_CLASSES
+    items = ['n', 'w', 'T'] if quick else ['n', 'w', 'T', 'c', 'M']
+    k = 0
+    for blen in (1, 2) if quick else (1, 2, 3):
+        for body in bodies(DRIVE_ALPHA, blen):
+            for s in seqs(items, 3):
+                for cls in classes:
+                    k += 1
+                    ops.append(line(cls, 'cm'[k & 1], body, s))
+    for body in bodies(DRIVE_CORE, 3) + ([] if quick else bodies(DRIVE_CORE, 4)):
+        for s in seqs(['n', 'T'], 4):
+            if len(s) >= 3:
+                ops.append(line('Node', 'm', body, s))
+    for blen in (1, 2) if quick else (1, 2, 3):
+        for body in bodies(DRIVE_READER, blen):
+            for s in seqs(items, 3):
+                for cls in classes:
+                    rt = []
+                    for x in s:
+                        if rng.chance(1, 3):
+                            rt += ['|'] * (1 + rng.below(2))
+                        rt.append(x)
+                    if rng.chance(1, 3):
+                        rt.append('|')
+                    ops.append(line(cls, 'r', body, rt))
+    for _ in range(2000 if quick else 40000):
+        cls = rng.choice(FDRIVE_CLASSES)
+        mode = rng.choice('cmr')
+        s = []
+        for _ in range(rng.below(8)):
+            s.append(rng.choice(['n', 'w', 'r', 'c', 'T', 'M', 'X']))
+            if mode == 'r' and rng.chance(1, 3):
+                s += ['|'] * (1 + rng.below(2))
+        alpha = DRIVE_READER if mode == 'r' else DRIVE_ALPHA
+        n = len([x for x in s if x != '|' and x[0] in FILTER_MEMBERS[cls]])
+        script = ''.join(rng.choice(alpha) for _ in range(3 + rng.below(3 * n + 3)))
+        ops.append('fdrive %s %s %s %d %s' % (cls, mode, script, n, ' '.join(s)))
+    return ops
+
+
+def describe_script(script, upto):
+    return '; '.join(DRIVE_OPNAME[c] for c in script[:upto + 1] if c != '.')
+
+
 def grouped(objs):
     seen = set()
     prev = None
@@ -599,7 +826,13 @@ def run(ctx):
                 'up to length 2 (quick) / 3 (thorough) over the 13 item types, static handler on ALL sequences up to length 3, removed-flag '
                 'variants, all handler lists of length 2..4 over {static, dynamic, lambda(Node&), chain}, every cut of short sequences into '
                 'reader buffers, the real io::Reader; filt: 14 iterator classes x const/non-const/reader x all sequences up to length 2 + random; '
-                'diff: all run-length patterns up to total length 7 x type/id layouts x 6 entry points + random long + ungrouped. '
+                'diff: all run-length patterns up to total length 7 x type/id layouts x 6 entry points + random long + ungrouped; '
+                'drive (driving patterns of the DiffIterator): two iterator objects driven by EVERY loop body of length 1..2 (3: total length <= 4) over 12 '
+                'operations {*a, a->, ++a, *a++, advance(a,2), b=a, a=b, *b, ++b, *b++, a==end, a==b} and every body of length 4 over 6 core operations, '
+                'repeated until the range is exhausted, x every run-length pattern up to total length 5 (quick) / 6, over ItemIterator (const / non-const) '
+                'and, with one iterator object, over the single-pass InputIterator with random buffer cuts; + random long scripts; '
+                'fdrive: the same scripts on ItemIterator<T> (const / non-const, two objects) and InputIterator<_, T> (one object) for 3 (quick) / 8 classes '
+                'x all item sequences up to length 3. '
                 'distinct = distinct op lines / table rows; trivial (not counted as non-trivial) = ops over an empty item sequence')
     ctx.assumptions += [
         'wrapped function objects: signatures over OSM entity/object types and `auto` only; a parameter of type memory::Item is the '
@@ -681,7 +914,7 @@ def run(ctx):
             rp = json.load(f)
         op = rp.get('op')
         if op:
-            b = dbin if op.startswith('diff') else hbin
+            b = dbin if op.startswith(('diff', 'drive')) else hbin
             rc, impl, se = ctx.run_lines([b], op + '\n')
             rc2, model, se2 = ctx.run_lines([ctx.model_exe('model_c20')], op + '\n')
             vlib.log('replay op   : ' + op)
@@ -695,6 +928,12 @@ def run(ctx):
                 want = oracle_filt(w[1], w[3:])
             elif w[0] == 'diff':
                 want = oracle_diff(w[1], int(w[2]), w[3:])
+            elif w[0] == 'fdrive':
+                want = ' '.join(oracle_fdrive(w[1], w[3], w[5:])[0]) or '-'
+                vlib.log('  script    : ' + describe_script(w[3], len(w[3])))
+            elif w[0] == 'drive':
+                want = ' '.join(oracle_drive(w[2], w[3:])[0]) or '-'
+                vlib.log('  script    : ' + describe_script(w[2], len(w[2])))
             vlib.log('  property  : ' + str(want))
             if want is not None and impl and impl[0] != want:
                 ctx.violation(rp.get('key', 'replay'), 'replayed op still violates the property', {'kind': 'counterexample', 'op': op, 'impl': impl[0], 'expected': want})
@@ -711,28 +950,32 @@ def run(ctx):
     apply_ops = [o for o in corpus if o.startswith('apply')] + gen_apply_ops(ctx, quick)
     filt_ops = [o for o in corpus if o.startswith('filt')] + gen_filt_ops(ctx, quick)
     diff_ops = [o for o in corpus if o.startswith('diff')] + gen_diff_ops(ctx, quick)
+    drive_ops = [o for o in corpus if o.startswith('drive')] + gen_drive_ops(ctx, quick)
+    fdrive_ops = [o for o in corpus if o.startswith('fdrive')] + gen_fdrive_ops(ctx, quick)
     main_ops = apply_ops + filt_ops
 
     res = {}
 
     def runner(key, cmd, ops):
         res[key] = ctx.run_lines(cmd, '\n'.join(ops) + '\n')
-    jobs = [('impl-main', [hbin], main_ops), ('impl-diff', [dbin], diff_ops)]
+    jobs = [('impl-main', [hbin], main_ops), ('impl-diff', [dbin], diff_ops), ('impl-drive', [dbin], drive_ops), ('impl-fdrive', [hbin], fdrive_ops)]
     if ctx.exe_build_ok:
-        jobs += [('model-main', [ctx.model_exe('model_c20')], main_ops), ('model-diff', [ctx.model_exe('model_c20')], diff_ops)]
+        jobs += [('model-main', [ctx.model_exe('model_c20')], main_ops), ('model-diff', [ctx.model_exe('model_c20')], diff_ops),
+                 ('model-drive', [ctx.model_exe('model_c20')], drive_ops), ('model-fdrive', [ctx.model_exe('model_c20')], fdrive_ops)]
     ths = [threading.Thread(target=runner, args=j) for j in jobs]
     for t in ths:
         t.start()
     for t in ths:
         t.join()
-    for key in ('impl-main', 'impl-diff'):
+    ops_of = {'impl-main': main_ops, 'impl-diff': diff_ops, 'impl-drive': drive_ops, 'impl-fdrive': fdrive_ops}
+    for key in ('impl-main', 'impl-diff', 'impl-drive', 'impl-fdrive'):
         rc, lines, se = res[key]
-        n = len(main_ops) if key == 'impl-main' else len(diff_ops)
+        n = len(ops_of[key])
         if rc != 0 or len(lines) != n:
-            ops = main_ops if key == 'impl-main' else diff_ops
+            ops = ops_of[key]
             # the harness buffers its output: run again line-buffered to find the op that crashed
             try:
-                rc_b, lines_b, se_b = ctx.run_lines(['stdbuf', '-oL', hbin if key == 'impl-main' else dbin], '\n'.join(ops) + '\n')
+                rc_b, lines_b, se_b = ctx.run_lines(['stdbuf', '-oL', hbin if key in ('impl-main', 'impl-fdrive') else dbin], '\n'.join(ops) + '\n')
                 if rc_b != 0:
                     rc, lines, se = rc_b, lines_b, se_b
             except OSError:
@@ -741,18 +984,20 @@ def run(ctx):
             ctx.violation('harness-crash:' + at[:100], 'harness %s exited %d after %d of %d ops (next op: `%s`): %s' % (key, rc, len(lines), n, at, se[-500:]),
                           {'kind': 'harness-crash', 'op': at, 'stderr': se[-2000:], 'replay': 'echo "<op>" | <harness %s (assertions enabled)>' % key},
                           found_input=(at != '<end>'))
-            if key == 'impl-diff' and 'Assertion' in se:
+            if key in ('impl-diff', 'impl-drive') and 'Assertion' in se:
                 # an assertion of the library fired (the diff harness is built with assertions on):
                 # go on with an NDEBUG build so that the property monitors can still judge the output
                 nd, e3 = vlib.build_cpp('c20_diff_nd', ['c20_diff.cpp'], flags=flag, ndebug=True)
                 if nd is not None:
-                    r2 = ctx.run_lines([nd], '\n'.join(diff_ops) + '\n')
-                    if r2[0] == 0 and len(r2[1]) == len(diff_ops):
+                    r2 = ctx.run_lines([nd], '\n'.join(ops) + '\n')
+                    if r2[0] == 0 and len(r2[1]) == len(ops):
                         res[key] = r2
                         continue
             return
     impl_main = res['impl-main'][1]
     impl_diff = res['impl-diff'][1]
+    impl_drive = res['impl-drive'][1]
+    impl_fdrive = res['impl-fdrive'][1]
 
     # ---- 3. property monitors on the implementation alone ------------------------------------------
     nviol = 0
@@ -799,13 +1044,80 @@ def run(ctx):
             nviol += 1
             ctx.violation('diff:%s' % ' '.join(w[1:])[:110], 'diff iteration violates the property on `%s`: %s' % (op, msg),
                           {'kind': 'counterexample', 'op': op, 'impl': got, 'expected': want, 'replay': 'echo "<op>" | <harness c20_diff>  (or: tools/check.py C20 --replay <this file>)'})
+    # driving patterns: every presentation is the property's context of the POSITION of the iterator object
+    nviol = 0
+    for op, got in zip(drive_ops, impl_drive):
+        w = op.split()
+        ctx.note_case(op, nontrivial=len(w) > 3)
+        want, info, feats = oracle_drive(w[2], w[3:])
+        runs = run_shape(w[3:])
+        shape = 'empty' if not runs else 'runs-of-1' if max(runs) == 1 else 'has-run-of-2' if max(runs) == 2 else 'has-run-of-3+'
+        cls = '+'.join(sorted(feats)) or 'plain'
+        g = [] if got == '-' else got.split(' ')
+        okline = g == want
+        ctx.count('drive-entry:' + w[1])
+        ctx.count('drive:script[%s] x %s: %s' % (cls, shape, 'ok' if okline else 'VIOLATION'))
+        for k, (idx, o, p, how) in enumerate(info):
+            if how in ('end', 'cmp'):
+                ctx.count('drive-out:' + ('refused-at-end' if how == 'end' else 'comparison'))
+                continue
+            f = want[k].split(',')
+            where = {('1', '1'): 'single', ('1', '0'): 'first', ('0', '0'): 'middle', ('0', '1'): 'last'}[(f[3], f[4])]
+            ctx.count('drive-deref:%s@%s-of-run: %s' % (how, where, 'ok' if (k < len(g) and g[k] == want[k]) else 'VIOLATION'))
+        if not okline and nviol < 3:
+            nviol += 1
+            k = 0
+            while k < len(g) and k < len(want) and g[k] == want[k]:
+                k += 1
+            if k < len(info):
+                idx, o, p, how = info[k]
+                msg = ('after `%s` iterator object %s stands on position %d (object arrived there by %s) and %s `%s`, the property demands `%s` '
+                       '(<prev>,<curr>,<next>,<first>,<last> as item positions)'
+                       % (describe_script(w[2], idx), o, p, how, 'the operation yields' if how in ('end', 'cmp') else 'the dereference presents',
+                          g[k] if k < len(g) else '<nothing>', want[k]))
+            else:
+                msg = 'got `%s`, the property demands `%s`' % (got[:300], ' '.join(want)[:300])
+            ctx.violation('drive:%s' % ' '.join(w[1:])[:110],
+                          'what a DiffIterator position presents depends on how the iterator was driven: `%s`: %s' % (op, msg),
+                          {'kind': 'counterexample', 'op': op, 'impl': got, 'expected': ' '.join(want) or '-',
+                           'script': describe_script(w[2], len(w[2])),
+                           'replay': 'echo "<op>" | <harness c20_diff>  (or: tools/check.py C20 --replay <this file>)'})
+    nviol = 0
+    for op, got in zip(fdrive_ops, impl_fdrive):
+        w = op.split()
+        ctx.note_case(op, nontrivial=len(w) > 5)
+        want, info, feats = oracle_fdrive(w[1], w[3], w[5:])
+        g = [] if got == '-' else got.split(' ')
+        okline = g == want
+        ctx.count('fdrive:%s script[%s]: %s' % ({'c': 'ItemIterator(const)', 'm': 'ItemIterator', 'r': 'InputIterator'}[w[2]],
+                                                '+'.join(sorted(feats)) or 'plain', 'ok' if okline else 'VIOLATION'))
+        if not okline and nviol < 3:
+            nviol += 1
+            k = 0
+            while k < len(g) and k < len(want) and g[k] == want[k]:
+                k += 1
+            if k < len(info):
+                idx, o, p, how = info[k]
+                msg = ('after `%s` iterator object %s stands on position %d of the items it has to visit (arrived there by %s) and yields `%s`, '
+                       'the property demands `%s`' % (describe_script(w[3], idx), o, p, how, g[k] if k < len(g) else '<nothing>', want[k]))
+            else:
+                msg = 'got `%s`, the property demands `%s`' % (got[:300], ' '.join(want)[:300])
+            ctx.violation('fdrive:%s' % ' '.join(w[1:])[:110],
+                          'what a filtering iterator presents depends on how it was driven: `%s`: %s' % (op, msg),
+                          {'kind': 'counterexample', 'op': op, 'impl': got, 'expected': ' '.join(want) or '-', 'script': describe_script(w[3], len(w[3])),
+                           'replay': 'echo "<op>" | <harness c20>  (or: tools/check.py C20 --replay <this file>)'})
+    ctx.sample(fdrive_ops[len(fdrive_ops) // 2])
+    ctx.sample(drive_ops[len(drive_ops) // 3])
+    ctx.sample(drive_ops[-5])
     for o in (main_ops[5000], main_ops[len(apply_ops) - 7], main_ops[-3], diff_ops[200], diff_ops[-400]):
         ctx.sample(o)
 
     # ---- 4. correspondence --------------------------------------------------------------------------
     if ctx.exe_build_ok and 'model-main' in res:
         for name, ops, impl, key in (('c20-apply+filt-model-vs-impl', main_ops, impl_main, 'model-main'),
-                                     ('c20-diff-model-vs-impl', diff_ops, impl_diff, 'model-diff')):
+                                     ('c20-diff-model-vs-impl', diff_ops, impl_diff, 'model-diff'),
+                                     ('c20-drive-model-vs-impl', drive_ops, impl_drive, 'model-drive'),
+                                     ('c20-fdrive-model-vs-impl', fdrive_ops, impl_fdrive, 'model-fdrive')):
             model = res[key][1]
             dis = ctx.diff_streams(name, ops, impl, model)
             if dis and not ctx.violations:
